@@ -1,1 +1,3 @@
 import Cfdp.Model.Segments
+import Cfdp.Lemmas.Segments
+import Cfdp.Props.C09
